@@ -184,7 +184,9 @@ func (g *gen) stmt(d int) []node {
 	if d <= 0 || g.budget <= 0 {
 		return []node{g.simple()}
 	}
-	switch g.r.Intn(18) {
+	switch g.r.Intn(19) {
+	case 18: // a loop left for an outer label after an earlier pass produced a value
+		return g.escape(d)
 	case 16, 17: // with: the label set of a labelled `with` does not reach a loop in its body
 		o := g.withOperand()
 		var body node
@@ -365,6 +367,58 @@ func (g *gen) loop(d int, pending []string) []node {
 	}
 }
 
+// escape: a break or continue that leaves a loop for a label further out in the SECOND pass over the body, before that
+// pass has produced a value, while the first pass did: the completion carries no value of the loop (12.6.x "return
+// stmt"). Shapes: l: { loop }, l: if (..) loop, l: with (o) loop (the label set of the if / with does not reach the
+// loop), m: loop { loop … continue m }.
+func (g *gen) escape(d int) []node {
+	g.nLabel++
+	l := fmt.Sprintf("l%d", g.nLabel)
+	k := g.newCounter()
+	reset := node{"X(asg(" + k + ",n0))", k + " = 0;"}
+	incr := "asg(" + k + ",add(var(" + k + "),n1))"
+	incrJS := "(" + k + " = (" + k + " + (1)))"
+	test := node{"lt(" + incr + ",n3)", "(" + incrJS + " < (3))"}
+	mk := func(jump node) node {
+		v := g.intE(1)
+		body := []node{{"I(seq(var(" + k + "),n2)," + jump.sx + ",E)", "if (" + k + " === (2)) " + jump.js},
+			{"X(" + v.sx + ")", v.js + ";"}}
+		if g.r.Chance(30) {
+			body = append(body, block([]node{g.simple()}))
+		}
+		b := block(body)
+		switch g.r.Intn(3) {
+		case 0:
+			return node{"W(" + test.sx + "," + b.sx + ")", "while (" + test.js + ") " + b.js}
+		case 1:
+			return node{"D(" + b.sx + "," + test.sx + ")", "do " + b.js + " while (" + test.js + ");"}
+		}
+		return node{"F(_," + test.sx + ",_," + b.sx + ")", "for (; " + test.js + "; ) " + b.js}
+	}
+	brk := node{"K(" + l + ")", "break " + l + ";"}
+	switch g.r.Intn(4) {
+	case 0:
+		pre := g.simple()
+		if strings.HasPrefix(pre.sx, "K(") || strings.HasPrefix(pre.sx, "C(") {
+			pre = node{"E", ";"}
+		}
+		in := block([]node{pre, reset, mk(brk)})
+		return []node{{"L(" + l + "," + in.sx + ")", l + ": " + in.js}}
+	case 1:
+		lp := mk(brk)
+		return []node{reset, {"L(" + l + ",I(t," + lp.sx + ",E))", l + ": if (true) " + lp.js}}
+	case 2:
+		lp := mk(brk)
+		return []node{reset, {"L(" + l + ",Wi(obj()," + lp.sx + "))", l + ": with ({}) " + lp.js}}
+	default:
+		j := g.newCounter()
+		otest := node{"lt(asg(" + j + ",add(var(" + j + "),n1)),n2)", "((" + j + " = (" + j + " + (1))) < (2))"}
+		lp := mk(node{"C(" + l + ")", "continue " + l + ";"})
+		ob := block([]node{reset, lp})
+		return []node{{"X(asg(" + j + ",n0))", j + " = 0;"}, {"L(" + l + ",W(" + otest.sx + "," + ob.sx + "))", l + ": while (" + otest.js + ") " + ob.js}}
+	}
+}
+
 func (g *gen) switchS(d int, pending []string) node {
 	disc := g.hdr(g.intE(1))
 	nc := 1 + g.r.Intn(4)
@@ -411,7 +465,10 @@ func (g *gen) switchS(d int, pending []string) node {
 func GenProgram(r *h.Rng, size int) (string, string, string) {
 	g := &gen{r: r, budget: size}
 	body := g.stmts(5, 3+r.Intn(3))
-	if r.Chance(70) {
+	if r.Chance(12) {
+		// the program ends with such a loop: its completion value is the program's
+		body = append(body, g.escape(2)...)
+	} else if r.Chance(70) {
 		e := g.intE(2)
 		body = append(body, node{"X(" + e.sx + ")", e.js + ";"})
 	}
